@@ -247,6 +247,16 @@ def check(model: Model, run: Run) -> None:
         if sfi is None or ffi is None:
             raise AnalysisError(f"{q}: __str__/from_string missing")
         read = {n.attr for n in ast.walk(sfi.node) if isinstance(n, ast.Attribute) and isinstance(n.value, ast.Name) and n.value.id == "self"}
+        # formatting helpers that are handed the object itself read its fields through their own parameter
+        for n in ast.walk(sfi.node):
+            if isinstance(n, ast.Call) and isinstance(n.func, ast.Name) and any(isinstance(a, ast.Name) and a.id == "self" for a in n.args):
+                hq = model.resolve_name(SCHEMA, n.func.id)
+                hf = model.functions.get(hq) if hq else None
+                if hf is not None and hf.cls is None and not isinstance(hf.node, ast.Lambda):
+                    for i, a in enumerate(n.args):
+                        if isinstance(a, ast.Name) and a.id == "self" and i < len(hf.params()):
+                            pn = hf.params()[i]
+                            read |= {x.attr for x in ast.walk(hf.node) if isinstance(x, ast.Attribute) and isinstance(x.value, ast.Name) and x.value.id == pn}
         ctor = [n for n in ast.walk(ffi.node) if isinstance(n, ast.Call) and norm(n.func) == cname]
         assigned = {k.arg for n in ctor for k in n.keywords}
         for f in fields:
